@@ -58,6 +58,10 @@ def run(ctx: Ctx):
               ' adds it; only the reserved OBJECT addresses the whole record (R-C18-4'
               ' reserved-key test: the candidate must be of the reserved type)',
               c18.r4, min_instances=4)
+  ctx.include('R-C08-12', '"apply replaces the record, assign adds exactly the named keys":'
+              ' when an operator has to create the container for its outputs, a plain'
+              ' integer output key is a dict key — only Key.Index addresses a list position'
+              ' (R-C18-8)', c18.r8, min_instances=1)
   from mlmverif.props import c12
   ctx.include('R-C08-7', '"filter keeps order and drops exactly the rejected'
               ' records": with error skipping the decisions stay paired with'
